@@ -197,6 +197,74 @@ def check_stream_str(ctx):
     search_concrete(ctx, "correspondence bpstr broken")
 
 
+def coq_str(b):
+    return "[" + "; ".join(str(x) for x in b) + "]%N"
+
+
+def coq_opt(tokv):
+    if tokv == "PANIC":
+        return "None"
+    return "Some " + coq_str(bytes.fromhex(tokv[1:]))
+
+
+def extraction_crosscheck(ctx, n):
+    """Re-evaluate, inside Coq (vm_compute), a sample of the very cases the extracted OCaml model answered
+    in this run; a difference between Coq's evaluation and the extracted code fails the check."""
+    from .. import COQ
+    cases = open(os.path.join(ctx.dir, "bpstr.cases")).read().splitlines()
+    model = open(os.path.join(ctx.dir, "bpstr.model")).read().splitlines()
+    if not cases:
+        return
+    step = max(1, len(cases) // n)
+    rows = []
+    for i in range(0, len(cases), step):
+        f = cases[i].split()
+        mo = dict(x.split("=", 1) for x in model[i].split())
+        B, cwd, p = (bytes.fromhex(t[1:]) for t in f[1:4])
+        rows.append("(%s, %s, %s, %s, %s, %s)" % (coq_str(B), coq_str(cwd), coq_str(p), coq_opt(mo["tb"]), coq_opt(mo["fb"]), coq_opt(mo["wd"])))
+    vf = os.path.join(ctx.dir, "CrossC10.v")
+    with open(vf, "w") as f:
+        f.write("From Avfs Require Import Base PathModel BasePath.\n"
+                "Definition rows : list (str * str * str * option str * option str * option str) := [\n  "
+                + ";\n  ".join(rows) + "].\n"
+                "Definition row_ok (r : str * str * str * option str * option str * option str) : bool :=\n"
+                "  let '(b, cwd, p, tb, fb, wd) := r in\n"
+                "  opt_eqb str_eqb (to_base_path Linux b cwd p) tb && opt_eqb str_eqb (from_base_path Linux b p) fb\n"
+                "  && opt_eqb str_eqb (bp_getwd Linux b cwd) wd.\n"
+                "Goal forallb row_ok rows = true. Proof. vm_compute. reflexivity. Qed.\n")
+    rc, out = sh(["timeout", "600", "coqc", "-Q", os.path.join(COQ, "theories"), "Avfs", vf], cwd=ctx.dir, timeout=700)
+    ctx.coverage["extraction_crosscheck"] = {"cases_reevaluated_in_coq": len(rows), "agree": rc == 0}
+    if rc != 0:
+        ctx.broken("extraction-crosscheck", "Coq's own evaluation of the model differs from the extracted OCaml code on sampled cases of this run", out[-2000:])
+
+
+def diagnose_table(ctx):
+    """Name the table entries that make C10_table unprovable (for the replay file of the broken obligation)."""
+    from .. import COQ
+    try:
+        src = open(os.path.join(COQ, "theories", "BasePath", "Gen_basepath.v")).read()
+    except OSError:
+        return
+    sus = []
+    for m in re.finditer(r'm_recv := "(\w*)"; m_name := "(\w+)";.*?m_shape := (.*?) \|\}', src, flags=re.S):
+        recv, name, shape = m.groups()
+        if re.search(r'Unknown|RStrPanicky|RErrRaw|RStrRaw|ARaw "\w+" true', shape):
+            sus.append("%s.%s: %s" % (recv, name, " ".join(shape.split())[:200]))
+    fns = re.search(r"generic_fns.*?:=\s*\[(.*?)\]\.", src, flags=re.S)
+    if fns:
+        sus += ["generic function avfs.%s reaches a file system other than through its vfs parameter (or is not generic)" % n
+                for n in re.findall(r'\("(\w+)", false\)', fns.group(1))]
+    for v in ctx.violations:
+        if not v.found_input:
+            try:
+                o = json.load(open(v.replay))
+                o["theorem"] = "C10_table (Properties/C10.v) / BasePathTableProofs.table_checks, if the first failing file is BasePathTableProofs.v"
+                o["table_entries_to_look_at"] = sus
+                json.dump(o, open(v.replay, "w"), indent=1)
+            except Exception:
+                pass
+
+
 def check_C10(ctx):
     cov = ctx.coverage
     cov["theorem_status"] = {"proved_for_all_inputs": PROVED, "partial": PARTIAL, "refuted_on_pinned_code": REFUTED_ON_PINNED}
@@ -211,9 +279,12 @@ def check_C10(ctx):
         check_stream_str(ctx)
         check_stream_fs(ctx)
         cov["exhaustive"] = not ctx.violations
+        if not ctx.violations:
+            extraction_crosscheck(ctx, 1500 if ctx.tier == "thorough" else 150)
     else:
         # the Coq side no longer checks (e.g. the regenerated table has an unsafe or unknown shape):
         # search the implementation for a concrete failing input
+        diagnose_table(ctx)
         search_concrete(ctx, "proof obligation broken (Coq build)")
     known_findings(ctx)
 
